@@ -27,18 +27,20 @@ def spaces(tier):
         ("c15", [["--depth", 1 if q else 2, "--small-depth", 3, "--shard", i, "--nshards", n] for i in range(n)]),
         ("c16", [["--depth", 3 if q else 4, "--nodedup-depth", 2, "--shard", 0, "--nshards", 1, "--regex-out", os.path.join(vlib.BUILD, "c20-regex.tsv"), "--regex-tokens", 2, "--regex-len", 2]]),
         ("c17", [["--depth", 5 if q else 6, "--nodedup-depth", 4 if q else 5, "--shard", i, "--nshards", 4] for i in range(4)]),
+        ("c13", [["--mode", m, "--len", 1 if q else 2, "--shard", i, "--nshards", 4] for m in ("json", "sentry") for i in range(4)]),
     ]
 
 
 def build_pair(name):
-    src = seqxrun.build(name, [name + ".cpp"], flavour="plain")
+    lf = ["-rdynamic", "-ldl"] if name == "c13" else []     # c13 interposes the clock (engine/vfs/vdev.h)
+    src = seqxrun.build(name, [name + ".cpp"], flavour="plain", link_flags=lf)
     hdr_file = os.path.join(vlib.REPO, "qtlogger.h")
     mocf = vlib.moc(hdr_file, os.path.join(vlib.BUILD, "plain-hdr", "moc_qtlogger.cpp"))
     # header-only: no library objects, the header supplies everything (QTLOGGER_SYSLOG as in the library build)
     save = list(vlib.BASE_FLAGS)
     try:
         hdr = vlib.build_exe(name + "h", [os.path.join(SEQX, name + ".cpp")], "plain", [],
-                             extra_flags=["-I" + SEQX, '-DVERIF_QTLOGGER_H="%s"' % hdr_file, '-DVERIF_QTLOGGER_MOC="%s"' % mocf], variant="hdr")
+                             extra_flags=["-I" + SEQX, '-DVERIF_QTLOGGER_H="%s"' % hdr_file, '-DVERIF_QTLOGGER_MOC="%s"' % mocf], link_flags=lf, variant="hdr")
     finally:
         vlib.BASE_FLAGS[:] = save
     return src, hdr
@@ -79,7 +81,9 @@ def first_difference(name, src, hdr, args):
     msg = "outputs differ in length (%d vs %d cases)" % (len(a), len(b))
     for x, y in zip(a, b):
         if x != y:
-            msg = "library build: %s | header-only build: %s" % (x[:300], y[:300])
+            k = next((i for i, (p, q) in enumerate(zip(x, y)) if p != q), min(len(x), len(y)))
+            lo = max(0, k - 60)
+            msg = "case %s ... at offset %d library build has ...%s... header-only build has ...%s..." % (x[:100], k, x[lo:k + 80], y[lo:k + 80])
             break
     for f in out:
         os.unlink(f)
@@ -144,12 +148,12 @@ def run(tier):
     tot["transitions"] = cases
     tot["replays_ok"] = pairs
     tot["distinct_outcomes"] = distinct
-    tot["bound"] = "explorer spaces of C01 C12 C14 C15 C16 C17 (%s bounds) on both distributions; regeneration compared byte for byte" % tier
+    tot["bound"] = "explorer spaces of C01 C12 C13/C18 C14 C15 C16 C17 (%s bounds) on both distributions; regeneration compared byte for byte" % tier
     tot["samples"] = [{"explorer": r["explorer"], "cases": r.get("cases"), "digests_equal": r.get("digests_equal")} for r in table]
     return seqxrun.finish(
         PROP, tier, "exploration", tot, t,
-        rule="the bounded spaces of the explorers for C01 (pipeline trees, fluent sequences), C12 (patterns x values), C14 (signatures, rule strings), C15 (rule lists), C16 (filter/counter message "
-             "sequences, regex verdicts) and C17 (sorted-pipeline call sequences) are executed by two builds of each explorer: against the library sources under src/ and against the single "
+        rule="the bounded spaces of the explorers for C01 (pipeline trees, fluent sequences), C12 (patterns x values), C13/C18 (JSON and Sentry events incl. formatter objects constructed with "
+             "non-default arguments), C14 (signatures, rule strings), C15 (rule lists), C16 (filter/counter message sequences, regex verdicts) and C17 (sorted-pipeline call sequences) are executed by two builds of each explorer: against the library sources under src/ and against the single "
              "header /repo/qtlogger.h alone (its own moc output, no library objects); every (case => observed output) pair is folded into a per-shard digest and the digests, case counts and "
              "oracle verdicts must be equal; a mismatch is diffed down to the first differing case. evaluations = cases executed per build. Separately (exact, not model checking): the project's "
              "generator is run on a scratch copy of src/ + tools/ and its output is compared byte for byte with the committed header (coverage.regeneration_identical)",
